@@ -139,16 +139,20 @@ class ThermalMotion:
         - len(freq) > 1 and single t
 
         """
-        condition = t > 1.0
+        # n = 1 / (exp(x) - 1) is evaluated as exp(-x) / (1 - exp(-x)), which
+        # does not overflow at low temperatures.
+        condition = t > 0
         # Avoid using isinstance with bool to distinguish from int.
         if isinstance(condition, (bool, np.bool_)):
             if condition:
-                return 1.0 / (np.exp(freq * THzToEv / (Kb * t)) - 1)
+                val = np.exp(-freq * THzToEv / (Kb * t))
+                return val / (1 - val)
             else:
                 return 0.0
         else:
             vals = np.zeros(len(t), dtype="double")
-            vals[condition] = 1.0 / (np.exp(freq * THzToEv / (Kb * t[condition])) - 1)
+            val = np.exp(-freq * THzToEv / (Kb * t[condition]))
+            vals[condition] = val / (1 - val)
             return vals
 
 
